@@ -719,6 +719,12 @@ func (x *Exec) step(st *State, in ssa.Instruction) {
 			limitf("field of anonymous struct pointer")
 		}
 		si := U.structInfo(nt)
+		if base.S == "@elem" && si.Sum == "" {
+			// field of a record that is an element of a slice value (&s[i]).f: a read-only pseudo address
+			f := si.Fields[in.Field]
+			set(in, Val{S: "@elem", T: fmt.Sprintf("(%s.%s %s)", si.Name, f.Name, base.T), GT: ft, A: &Addr{Ref: "@elem", T: ft}})
+			return
+		}
 		if si.Sum != "" {
 			// field of an immutable node: a read-only pseudo address
 			t := x.term(st, base, false)
